@@ -35,10 +35,13 @@ TRUSTED = [
     "floats: integral values only; int()/float()/str() of foreign JSON given to the model as finite tables from CPython",
 ]
 
-SCALARS = ["str", "int", "float", "bool", "bytes", "datetime", "date", "any"]
+SCALARS = ["str", "int", "float", "bool", "bytes", "datetime", "date", "any", "uuid", "time"]
 STRS = ["", "a", "abc", "5", "-3", "007", "QUJD", "AB", "2020-01-02", "2020-01-02T03:04:05",
         "2020-01-02T03:04:05Z", "2020-01-02T03:04:05+00:00", "2021-12-31T23:59:59.123456+02:00",
-        "Zed", "None", "x_y", "xY", "id", "é", "1e3", "true"]
+        "Zed", "None", "x_y", "xY", "id", "é", "1e3", "true", "12345678123456781234567812345678", "10:20",
+        "12345678-1234-5678-1234-567812345678", "10:20:30"]
+UUIDS = ["12345678-1234-5678-1234-567812345678", "00000000-0000-0000-0000-000000000000", "abcdef01-2345-6789-abcd-ef0123456789"]
+TIMES = ["10:20:30", "23:59:59.123456", "00:00:00"]
 DTS = ["2020-01-02T03:04:05", "2020-01-02T03:04:05+00:00", "2021-12-31T23:59:59.123456+02:00", "1999-01-01T00:00:00"]
 DATES = ["2020-01-02", "1999-12-31"]
 BYTES = [b"", b"A", b"AB", b"ABC", b"\x00\xff\x10", b"hello world", b"\xfb\xff", b"\xff\xef\xbe"]
@@ -176,10 +179,10 @@ def gen_doc(rng, classes, t, depth=4, nonnull=False) -> Any:
             return ["s", rng.choice(DTS)]
         if t == "date":
             return ["s", rng.choice(DATES)]
-        if t in ("uuid",):
-            return ["s", "12345678-1234-5678-1234-567812345678"]
+        if t == "uuid":
+            return ["s", rng.choice(UUIDS)]
         if t == "time":
-            return ["s", "10:20:30"]
+            return ["s", rng.choice(TIMES)]
         j = gen_json(rng, 2)
         while nonnull and j == ["n"]:
             j = gen_json(rng, 2)
@@ -213,6 +216,10 @@ def gen_val(rng, classes, t, depth=4, nonnull=False) -> Any:
             return ["dt", rng.choice(DTS)]
         if t == "date":
             return ["d", rng.choice(DATES)]
+        if t == "uuid":
+            return ["u", rng.choice(UUIDS)]
+        if t == "time":
+            return ["t", rng.choice(TIMES)]
         return gen_doc(rng, classes, t, depth, nonnull)
     k = t[0]
     if k == "list":
@@ -240,7 +247,7 @@ def finite(classes, t, depth=6) -> bool:
 def supported(classes, t, seen=()) -> bool:
     """annotation uses only types the converter has hooks for, with bijective maps"""
     if isinstance(t, str):
-        return t not in ("uuid", "time")
+        return True
     if t[0] == "fwd":
         return False
     if t[0] in ("list", "dict", "opt"):
@@ -379,7 +386,7 @@ def gen_conv_case(rng, malformed: bool) -> dict:
             # un-hooked classes, a path structure_from_dict never takes and the model does not describe.
             # Nor for Optional[dataclass]: the Union hook registers the variant itself (a state change the model
             # does not thread through structure; irrelevant after structure_from_dict's own registration).
-            if not any_leaf(classes, t, ("uuid", "time")) and not has_opt_data(classes, t):
+            if not has_opt_data(classes, t):
                 doc = gen_doc(rng, classes, t)
                 plan.append({"step": "raw", "ty": t, "doc": doc})
         else:
@@ -535,6 +542,10 @@ def to_py(v, built) -> Any:
         return datetime.fromisoformat(v[1])
     if k == "d":
         return date.fromisoformat(v[1])
+    if k == "u":
+        return UUID(v[1])
+    if k == "t":
+        return time.fromisoformat(v[1])
     if k == "D":
         return built[v[1]](**{a: to_py(b, built) for a, b in v[2]})
     raise ValueError(v)
@@ -563,6 +574,10 @@ def canon(o, built_rev) -> Any:
         return ["dt", o.isoformat()]
     if isinstance(o, date):
         return ["d", o.isoformat()]
+    if isinstance(o, UUID):
+        return ["u", str(o)]
+    if isinstance(o, time):
+        return ["t", o.isoformat()]
     if isinstance(o, list):
         return ["l", [canon(x, built_rev) for x in o]]
     if isinstance(o, dict):
@@ -858,6 +873,10 @@ def c_val(v) -> str:
         return f"(VDatetime {cstr(v[1])})"
     if k == "d":
         return f"(VDate {cstr(v[1])})"
+    if k == "u":
+        return f"(VUuid {cstr(v[1])})"
+    if k == "t":
+        return f"(VTime {cstr(v[1])})"
     if k == "l":
         return f"(VList {clist(c_val(x) for x in v[1])})"
     if k == "m":
@@ -929,6 +948,8 @@ def tables_for(ops: list[dict]) -> str:
             + "; tb_b64enc := " + clist(cpair(cstr(b), cstr(base64.b64encode(b).decode())) for b in sorted(byts))
             + "; tb_dt := " + clist(cpair(cstr(s), osome(opt(lambda x: datetime.fromisoformat(x).isoformat(), s), cstr)) for s in ss)
             + "; tb_date := " + clist(cpair(cstr(s), osome(opt(lambda x: date.fromisoformat(x).isoformat(), s), cstr)) for s in ss)
+            + "; tb_uuid := " + clist(cpair(cstr(s), osome(opt(lambda x: str(UUID(x)), s), cstr)) for s in ss)
+            + "; tb_time := " + clist(cpair(cstr(s), osome(opt(lambda x: time.fromisoformat(x).isoformat(), s), cstr)) for s in ss)
             + "; tb_int := " + clist(cpair(cstr(s), osome(opt(int, s), c_z)) for s in ss)
             + "; tb_float := " + clist(cpair(cstr(s), osome(opt_float(s), c_z)) for s in ss)
             + "; tb_str := " + clist(cpair(j, cstr(t)) for j, t in strs.items()) + " |}")
@@ -965,7 +986,7 @@ def c_case(r: dict) -> str:
                 ctor = {"dict": "SDict", "data": "SData", "fwd": "SFwd"}[o[0]]
                 objs.append(f"({ctor} {clist(cpair(cstr(k), f'{x}%nat') for k, x in o[1])})")
         ob = r["obs"]
-        res = "(SOk " + c_json(ob[1]) + ")" if ob[0] == "ok" else ("SLeak" if ob[0] == "Leak" else "SFuel")
+        res = "(SOk " + c_json(ob[1]) + ")" if ob[0] == "ok" else "SFuel"   # a non-JSON return has no model counterpart any more
         return f"(InSer {clist(objs)} {case['root']}%nat, ObSer {res})"
     ops, obs = [], []
     for o in r["obs"]:
@@ -1070,7 +1091,7 @@ def main(chk: Check, replay: dict | None = None) -> int:
         if bad:
             chk.broken.append({"kind": "guard", "name": "reach (registration walk of the model) is not closed",
                                "mismatches": len(bad), "first": {"input": bad[0]["input"], "obs": None}})
-    chk.decide(cases, codes, {1: "F16a", 2: "F16d"},
+    chk.decide(cases, codes, {1: "F16a"},
                "Corr.C16.run: run_ops / serialize_top (model) = structure_from_dict / unstructure_to_dict / "
                "DataclassSerializer.serialize observed on real dataclasses")
     return chk.finish(TRUSTED,
